@@ -195,7 +195,7 @@ class MainTransformer(object):
         name = removed.argname
         if name is None:
             return
-        for value in list(parent.parameters) + [parent.retval]:
+        for value in list(parent.parameters) + [removed, parent.retval]:
             if value is None:
                 continue
             if isinstance(value, ast.Parameter):
